@@ -19,7 +19,7 @@ def main(tier, seed):
     ctx = run.Ctx('C19', tier, seed)
     exe = mpmon.exe()
     wd = ctx.workdir()
-    ncases = ctx.n(6000, 100000)
+    ncases = ctx.n(12000, 300000)
 
     def one(k):
         rng = random.Random('%d/%d' % (seed, k))
